@@ -1,6 +1,7 @@
 package main
 
 import (
+	"os"
 	"fmt"
 	"go/constant"
 	"go/token"
@@ -76,7 +77,7 @@ func checkC12(w *World, r *Report) {
 	r.Rule("C12.validate", "P5", "each module's ValidateGenesis reaches GenesisState.Validate, which reaches the Validate of the parameters and of every element type that has one", 8)
 	r.Rule("C12.lossless", "P8", "the unit conversion applied on export has its inverse applied on import: every unit UnitsFromDuration can return is handled by DurationFromUnits with the same factor", 4)
 	r.Rule("C12.verbatim", "P4,P6", "InitGenesis stores the genesis data as given: no field of the GenesisState parameter, or of a local copy of a part of it, is assigned (no default-filling, reset or normalisation on import)", 4)
-	r.Rule("C12.getall", "P5", "closed world: every keeper function that lists a store prefix with an iterator (the getters behind ExportGenesis, the summaries and the block routines) appends the decoded record in every iteration and never leaves the loop early", 5)
+	r.Rule("C12.getall", "P5", "closed world: every keeper function that lists a store prefix with an iterator (the getters behind ExportGenesis, the summaries and the block routines) appends the decoded record in every iteration and never leaves the loop early", 3)
 	r.Rule("C12.accepts", "P4,P8", "inventory of rejecting conditions of each module's genesis validation: a condition on the Params.Validate tree is discharged because every stored parameter set passed that validation (C13.validated); every other one is reduced to (field of a module type, kind of constraint) - independent of spelling and of the function it lives in - and must be in the reviewed table (23 entries, one reason each: why no state written at run time meets it); a new, unreviewed rejecting condition is reported - a validator stricter than the runtime makes an exported genesis un-importable", 60)
 	r.Rule("C12.sameshape", "P7", "a record has two accepted shapes when export nils out a pointer field that the runtime keeps non-nil (the burn state's Account): on the block trees no effectful call may be reachable for one shape and unreachable for the other, i.e. effects must not be control-dependent on the nil-ness of that field", 1)
 	r.Rule("C12.shape", "P8,P5", "= C10.maybenil for fields that export sets to nil: what ExportGenesis writes must be dereferenceable by the block routines", 1)
@@ -190,6 +191,13 @@ func checkC12(w *World, r *Report) {
 			if okA {
 				o := tr.Origins(v)
 				fromState = o.HasCall("KVStore.Get", "prefix.Store.Get", "Iterator.Value", "KVStorePrefixIterator") || o.HasLeaf("outparam", "")
+				if !fromState && os.Getenv("C4E_DEBUG") != "" {
+					var cs []string
+					for c := range o.Calls {
+						cs = append(cs, callName(c.Common()))
+					}
+					fmt.Println("C12FIELDS", f, o.String(), o.Truncated, cs, v.String())
+				}
 			}
 			r.Check(okA && fromState && read[f], "C12.fields", construct, w.Pos(exp.Pos()), "assigned from keeper state in ExportGenesis and read on the InitGenesis tree",
 				fmt.Sprintf("assigned in ExportGenesis from state: %v; read on the InitGenesis tree: %v", okA && fromState, read[f]))
